@@ -185,6 +185,28 @@ def run_tlc(module, cfg, *, workers=4, xmx="4g", timeout=600, env=None, simulate
     return res
 
 
+def run_apalache(module, *, cinit, init, inv, length, timeout=600, tag="apalache"):
+    """apalache-mc check (symbolic, bounded in steps, unbounded in integer constants / variables).
+    Returns "ok" | "error" (an invariant violation was found) ; anything else is a ToolError."""
+    mod = module if os.path.isabs(module) else os.path.join(SPEC, module)
+    out = ensure_dir(os.path.join(OUT, "apalache", "%s-%d" % (tag, os.getpid())))
+    cmd = ["timeout", str(timeout), "apalache-mc", "check", "--out-dir=" + out, "--cinit=" + cinit, "--init=" + init,
+           "--inv=" + inv, "--length=%d" % length, mod]
+    t0 = time.time()
+    r = subprocess.run(cmd, cwd=out, stdout=subprocess.PIPE, stderr=subprocess.STDOUT, text=True)
+    shutil.rmtree(out, ignore_errors=True)
+    txt = r.stdout
+    if "The outcome is: NoError" in txt and "EXITCODE: OK" in txt:
+        res = "ok"
+    elif "The outcome is: Error" in txt and "invariant" in txt:
+        res = "error"
+    else:
+        sys.stdout.write("\n".join(txt.splitlines()[-25:]) + "\n")
+        raise ToolError("apalache-mc gave no verdict on %s (%s)" % (module, tag))
+    log("Apalache %s cinit=%s init=%s inv=%s length=%d: %s, %.1fs" % (os.path.basename(mod), cinit, init, inv, length, res, time.time() - t0))
+    return res
+
+
 def require_ok(res, what):
     if not res.ok:
         sys.stdout.write("\n".join(res.stdout.splitlines()[-40:]) + "\n")
